@@ -12,3 +12,51 @@ package validitywindow
 //@   ensures containerTimestamp % divisor != 0 ==> is(err, ErrMisalignedTime)
 //@   ensures containerTimestamp % divisor == 0 && containerTimestamp < executionTimestamp ==> is(err, ErrTimestampExpired)
 //@   ensures containerTimestamp % divisor == 0 && containerTimestamp > executionTimestamp + validityWindow ==> is(err, ErrFutureTimestamp)
+
+// ---- C09: replay protection of the validity window ----
+//@ type github.com/ava-labs/avalanchego/utils/set.Bits opaque
+//@ func Block.GetID
+//@   pure
+//@ func Block.GetParent
+//@   pure
+//@ func Block.GetTimestamp
+//@   pure
+//@ func Block.GetHeight
+//@   pure
+//@ func ExecutionBlock.GetContainers
+//@   pure
+//@ func ExecutionBlock.Contains
+//@   pure
+//@ func ChainIndex.GetExecutionBlock
+//@   noframe
+//@ func (*TimeValidityWindow).calculateOldestAllowed
+//@   trusted
+//@   noframe
+// The ancestor walk (C09): a container that the FIRST ancestor handed in (the parent) already contains
+// is reported, provided that ancestor is inside the window and above the accepted tip (older
+// ancestors only ever add marks; the accepted boundary is answered by the seen-set).
+//@ func (*TimeValidityWindow).isRepeat props C09
+//@   noframe
+//@   loop 1 invariant ancestorBlk == old(ancestorBlk) || stop || (forall j int :: 0 <= j && j < len(containers) && ExecutionBlock.Contains(old(ancestorBlk), emap.Item.GetID(containers[j])) ==> bit(marker, j))
+//@   loop 2 invariant 0 <= idx2 && idx2 <= len(containers)
+//@   loop 2 invariant stop || (forall j int :: 0 <= j && j < idx2 && ExecutionBlock.Contains(ancestorBlk, emap.Item.GetID(containers[j])) ==> bit(marker, j))
+//@   loop 2 invariant forall j int :: bit(entry(2, marker), j) ==> bit(marker, j)
+//@   ensures result1 == nil && !stop && Block.GetTimestamp(ancestorBlk) >= oldestAllowed && Block.GetHeight(ancestorBlk) > v.lastAcceptedBlockHeight && Block.GetHeight(ancestorBlk) != 0 ==> forall j int :: 0 <= j && j < len(containers) && ExecutionBlock.Contains(ancestorBlk, emap.Item.GetID(containers[j])) ==> bit(result0, j)
+
+// A block above the accepted tip passes replay protection only if no container id occurs twice IN
+// the block (C09: "nor twice in one block") and the ancestor walk reported no repeat.
+//@ func (*TimeValidityWindow).VerifyExpiryReplayProtection props C09
+//@   noframe
+//@   loop 1 invariant 0 <= idx1 && idx1 <= len(ExecutionBlock.GetContainers(blk))
+//@   loop 1 invariant forall a int :: 0 <= a && a < idx1 ==> has(blkContainerIDs, emap.Item.GetID(ExecutionBlock.GetContainers(blk)[a]))
+//@   loop 1 invariant forall a int, b int :: 0 <= a && a < b && b < idx1 ==> emap.Item.GetID(ExecutionBlock.GetContainers(blk)[a]) != emap.Item.GetID(ExecutionBlock.GetContainers(blk)[b])
+//@   ensures err == nil && Block.GetHeight(blk) > v.lastAcceptedBlockHeight ==> forall a int, b int :: 0 <= a && a < b && b < len(ExecutionBlock.GetContainers(blk)) ==> emap.Item.GetID(ExecutionBlock.GetContainers(blk)[a]) != emap.Item.GetID(ExecutionBlock.GetContainers(blk)[b])
+
+// Accepting a block (C09): expired ids are evicted, every container of the block with a non-zero
+// expiry is remembered, nothing remembered before is forgotten by the Add, and the accepted tip moves.
+//@ func (*TimeValidityWindow).Accept props C09
+//@   opt monitor v.mu
+//@   noframe
+//@   modifies gmap("seen", v.seen)[], v.lastAcceptedBlockHeight
+//@   ensures v.lastAcceptedBlockHeight == Block.GetHeight(blk)
+//@   ensures forall j int :: 0 <= j && j < len(ExecutionBlock.GetContainers(blk)) && emap.Item.GetExpiry(ExecutionBlock.GetContainers(blk)[j]) != 0 ==> has(gmap("seen", v.seen), str(emap.Item.GetID(ExecutionBlock.GetContainers(blk)[j])))
